@@ -90,6 +90,9 @@ impl BVec3A {
     #[inline]
     #[must_use]
     pub fn test(&self, index: usize) -> bool {
+        // the mask register has a fourth lane that is not part of the vector
+        assert!(index < 3, "index out of bounds");
+
         self.0.test(index)
     }
 
@@ -98,6 +101,9 @@ impl BVec3A {
     /// Panics if `index` is greater than 2.
     #[inline]
     pub fn set(&mut self, index: usize, value: bool) {
+        // the mask register has a fourth lane that is not part of the vector
+        assert!(index < 3, "index out of bounds");
+
         self.0.set(index, value)
     }
 
